@@ -96,8 +96,9 @@ def objStart (c : Nat) : Bool :=
   isDigit c || c == 45 || c == 46 || c == 110 || c == 116 || c == 102 ||
   c == 47 || c == 40 || c == 60 || c == 91
 
-/-- first bytes of the tokens the formatter writes, including the closing brackets -/
-def tokStart (c : Nat) : Bool := objStart c || c == 93 || c == 62
+/-- first bytes of the tokens the formatter writes, including the closing brackets, and `e`:
+    the keywords `endobj` / `endstream` that follow an object in a file (C02 `indirect_obj_rt`) -/
+def tokStart (c : Nat) : Bool := objStart c || c == 93 || c == 62 || c == 101
 
 theorem objStart_tokStart {c : Nat} (h : objStart c = true) : tokStart c = true := by simp [tokStart, h]
 
